@@ -25,6 +25,9 @@ for sid, m in rows:
     also = m.get('also') or []
     txt += '| %s | %s%s | %s | %s | %s |\n' % (sid, m['property'], (' (+' + ','.join(also) + ')') if also else '', esc(m['change']), esc(m['needs']), esc(m['caught_by']))
 txt += '''
+After the last extension every seed was re-evaluated against the check of its property (`tools/seed_regress.sh`; one line per seed in
+`seeded/REGRESSION.txt`): all exit 1 with a VIOLATION line.
+
 What the misses taught (all fixed, see the rows): contracts that stop one call level too low (C03-2, C15-2, C02-2, C01-2: the
 function that *decides* - who ticks, what refreshes, when plaintext passes - was environment); opaque values that should have been
 observed (C02-3: key material; C17-2, C18-2: what reaches the hash / KDF; C06-3: the field values of a decoded handshake message);
